@@ -33,9 +33,7 @@ func main() {
 		vf.Fatal("C15 spec does not generate: %v", err)
 	}
 	sc.CopyDriver("c15", "driver")
-	if err := sc.Build("driver", "driver.bin"); err != nil {
-		vf.Fatal("%v", err)
-	}
+	sc.BuildChecked(r, "driver", "driver.bin")
 	sum := sc.RunDriver(r, "driver.bin", nil)
 	for k, v := range sum.Stats {
 		r.Set(k, v)
